@@ -159,6 +159,13 @@ class Lemma:
         """H(args) -> P(args, N(args))"""
         return z3.Implies(self.hyps(*args), self.stmt(*args, self.upto(*args)))
 
+    def closed_instance(self, *outer):
+        """the last len(params) - len(outer) parameters universally quantified (the hypotheses must not mention them):
+        H(outer) -> forall rest. P(outer, rest, N)"""
+        rest = [z3.Const(f"%C_{self.name}_{nm}", srt) for nm, srt in self.params[len(outer):]]
+        args = list(outer) + rest
+        return z3.Implies(self.hyps(*args), z3.ForAll(rest, self.stmt(*args, self.upto(*args))))
+
 
 def slice_sum_lemma(kind):
     """sorted positions a = searchsorted(D, lo, left), b = searchsorted(D, hi, right if closed else left):
@@ -349,3 +356,24 @@ def false_lemmas():
                                                                  z3.If(c, insertion_point(D, N, b, hi, "right"), insertion_point(D, N, b, hi, "left"))),
                          good.stmt, good.upto))
     return out
+
+
+def nonneg_lemma(kind):
+    """non-negative weights: every weighted count is non-negative   (use closed_instance(D, W, N): for all lo, hi, c)"""
+    s, A = _wsort(kind)
+    params = [("D", RealArr), ("W", A), ("N", z3.IntSort()), ("lo", z3.RealSort()), ("hi", z3.RealSort()), ("c", z3.BoolSort())]
+
+    def hyps(D, W, N, lo, hi, c):
+        i = z3.Int("%nn_i")
+        return z3.And(N >= 0, z3.ForAll([i], z3.Implies(z3.And(i >= 0, i < N), z3.Select(W, i) >= 0)))
+    return Lemma(f"nonneg_{kind}", params, hyps, lambda D, W, N, lo, hi, c, n: wsum_fn(kind)(D, W, lo, hi, c, n) >= 0, lambda D, W, N, *r: N)
+
+
+def nonneg_side_lemma(kind, which):
+    s, A = _wsort(kind)
+    params = [("D", RealArr), ("W", A), ("N", z3.IntSort()), ("x", z3.RealSort())]
+
+    def hyps(D, W, N, x):
+        i = z3.Int("%nn_i")
+        return z3.And(N >= 0, z3.ForAll([i], z3.Implies(z3.And(i >= 0, i < N), z3.Select(W, i) >= 0)))
+    return Lemma(f"nonneg_{which}_{kind}", params, hyps, lambda D, W, N, x, n: side_fn(kind, which)(D, W, x, n) >= 0, lambda D, W, N, *r: N)
